@@ -174,6 +174,8 @@ def make_jobs(ctx):
                             flags=["--unwind", "10", "--unwinding-assertions"], funcs=["generated:%s %s" % (modname, fn)],
                             replay=lambda c, j, p, v: native_replay_generic(c, j, p, v),
                             info=dict(layer="G", table=("defined" if defined else "imported"), w2c2_options=" ".join(opts), module_hex=wasm_bytes.hex()), **extra))
+    from ..eexpr import expr_jobs
+    jobs += expr_jobs(ctx, ["call", "call_indirect"])
     return jobs
 
 
